@@ -49,3 +49,16 @@ Theorem src_headers_default_ref_eq : forall E, env_ok E -> env_fwd E -> forall s
    (st, match st with Complete _ => written_of hs | _ => [] end, slots_of hs dst)).
 Proof. intros E HE HF src dst Hb. rewrite src_parse_headers_eq by exact HF. apply parse_headers_ref; assumption. Qed.
 Print Assumptions src_headers_default_ref_eq.
+
+(* ---- the scanners and class tables of THIS run.  The theorems above hold for every environment E with `env_ok E`
+   (each scanner stops exactly at the first byte outside its class; the class predicates are the classes of the
+   property).  Every concrete backend -- word-at-a-time with any word width, SSE4.2, AVX2, NEON, the runtime dispatch
+   with any cached id -- built from the kernels, loop shells and CLASS TABLES translated from /repo on this run
+   satisfies it (Proofs/BackendsOk.v over Generated/{Classes,Swar,Sse42,Avx2,Neon}.v; Thm/C12.v states the parts), so
+   the theorems hold of the code as it is now; a table entry or a kernel that is not the class breaks this obligation
+   of THIS property, not only C12's ---- *)
+From HV Require Backends.
+From HV.Proofs Require BackendsOk.
+Theorem backends_of_this_run_ok : forall W, 0 < W -> forall be, env_ok (Backends.env_of W be).
+Proof. exact BackendsOk.env_of_ok. Qed.
+Print Assumptions backends_of_this_run_ok.
